@@ -639,6 +639,37 @@ class Engine2:
             fn._e2_booldefs = c
         return c.get(vid)
 
+    def subexprs(self, e, st):
+        """(node, state) for every sub-expression of e, the state being the one the node is evaluated in: the right operand of && / ||
+        and the arms of ?: under the facts their evaluation implies (value hooks that judge a sub-expression use this instead of a
+        plain walk)"""
+        if isinstance(e, list):
+            for y in e:
+                yield from self.subexprs(y, st)
+            return
+        if not isinstance(e, dict):
+            return
+        yield e, st
+        k = e.get('k')
+        if k == 'BinaryOperator' and e.get('op') in ('&&', '||'):
+            yield from self.subexprs(e['l'], st)
+            s2 = st.copy()
+            self.refine(e['l'], e['op'] == '&&', s2)
+            yield from self.subexprs(e['r'], s2)
+            return
+        if k == 'ConditionalOperator':
+            yield from self.subexprs(e['cnd'], st)
+            s1, s2 = st.copy(), st.copy()
+            self.refine(e['cnd'], True, s1); self.refine(e['cnd'], False, s2)
+            yield from self.subexprs(e['l'], s1)
+            yield from self.subexprs(e['r'], s2)
+            return
+        for kk, v in e.items():
+            if kk in ('t', 'ot', 'ct'):
+                continue
+            if isinstance(v, (dict, list)):
+                yield from self.subexprs(v, st)
+
     def _copy_def(self, vid):
         """initialiser of a local that is defined once as a (cast of a) variable which this function never writes, and is never
         reassigned itself: `const unsigned requested = static_cast<unsigned>(numChips);`.  Such a local is read as its initialiser
